@@ -75,6 +75,11 @@ func main() {
 
 	g := grammar.(*ast.Grammar)
 
+	if id, usedIn := g.LexPart.UndefinedRegDef(); id != "" {
+		fmt.Printf("Error: undefined regular definition %s used in %s\n", id, usedIn)
+		os.Exit(1)
+	}
+
 	gSymbols := symbols.NewSymbols(g)
 	if cfg.Verbose() {
 		writeTerminals(gSymbols, cfg)
